@@ -255,6 +255,11 @@ def all_jobs():
     J.append(dict(id='ctx_createChildShell', src='blocc/context.cpp', contract='ctx_child.c', enforce=mg, roots=[mg], replace=[], cut=[],
                   props=['C16'], pretty='bloc::Context::createChildShell', canaries=['normal'],
                   structs=DEFAULT_STRUCTS + [STD_STRING, 'bloc::Context']))
+    mg = '_ZNK4bloc7Context18createChildRuntimeERS0_h'
+    J.append(dict(id='ctx_createChildRuntime', src='blocc/context.cpp', contract='ctx_child.c', enforce=mg, roots=[mg], replace=[], cut=[], defines=['JOB_RUNTIME'],
+                  props=['C01', 'C08', 'C14'], pretty='bloc::Context::createChildRuntime', canaries=['normal'], unwind=4, bounded_inputs=True,
+                  unwind_why='declared symbol table of at most 2 slots',
+                  structs=DEFAULT_STRUCTS + [STD_STRING, 'bloc::Context', 'bloc::Symbol', 'bloc::Context::MemorySlot']))
     # ---- C08: function environments ----
     mg = '_ZNK4bloc7Context17resetChildRuntimeERS0_'
     J.append(dict(id='ctx_resetChildRuntime', src='blocc/context.cpp', contract='ctx_reset.c', enforce=mg, roots=[mg], replace=[V_MOVE_ASSIGN, V_CLEAR], cut=[V_MOVE_ASSIGN, V_CLEAR],
